@@ -714,7 +714,8 @@ class Signature:
 
         def transparent(v: str) -> bool:
             """Every read of v sees exactly one plain assignment: v is substituted wherever it is used."""
-            if any(dd.kind not in ("assign",) for dd in flow.defs if dd.var == v):
+            if any(not (dd.kind == "assign" or (dd.kind == "unpack" and dd.index and all(isinstance(i, int) for i in dd.index)))
+                   for dd in flow.defs if dd.var == v):
                 return False
             for n in ast.walk(fn):
                 if isinstance(n, ast.Name) and n.id == v and isinstance(n.ctx, ast.Load):
@@ -723,7 +724,7 @@ class Signature:
                     except AnalysisError:
                         return False
                     ds = flow.reaching(v, at)
-                    if len(ds) != 1 or ds[0].kind != "assign":
+                    if len(ds) != 1 or ds[0].kind not in ("assign", "unpack"):
                         return False
             return True
 
